@@ -25,6 +25,9 @@ CONSTANTS
   JumpToFirstAvailable = FALSE
   ReportOnlyIfBitSet = FALSE
   ResendWithoutCheck = FALSE
+  RejoinAtIndex = FALSE
+  DropPausePair = FALSE
+  TrackRepeat = FALSE
 SPECIFICATION FairSpec
 PROPERTIES C03_Live
 CHECK_DEADLOCK FALSE
